@@ -120,6 +120,12 @@ package socket
 //@   flags libframe
 //@   let hm = as(hdr, type(*message))
 //@   modifies hm.body
+// The body copy made while unmarshalling is sized by the decoded body (at most
+// the frame, unless a transfer filter expands it): it is not counted by the
+// frame-buffer monitor ghost.maxAlloc (C06 covers the frame buffers).
+//@ func (*message).UnmarshalBody
+//@   flags libframe frame-unchecked
+//@   modifies m.body, allelems(type(byte))
 //@ iface codec.Codec.Unmarshal
 //@   flags libframe
 //@ iface codec.Codec.Marshal
